@@ -803,35 +803,31 @@ Definition esc (q : ch) (name : str) : str := flat_map (fun c => if N.eqb c BSL 
 Definition dbl (name : str) : str := flat_map (fun c => if N.eqb c BSL then [BSL; BSL] else [c]) name.
 Definition quote (q : ch) (name : str) : str := q :: esc q name ++ [q].
 
-Lemma repl2_hit : forall x y z t, repl2 x y z (x :: y :: t) = z :: repl2 x y z t.
-Proof. intros. cbn [repl2]. rewrite !N.eqb_refl. reflexivity. Qed.
-Lemma repl2_miss1 : forall x y z c t, N.eqb c x = false -> repl2 x y z (c :: t) = c :: repl2 x y z t.
-Proof. intros x y z c [|d t] H; [reflexivity|]. cbn [repl2]. rewrite H. reflexivity. Qed.
-Lemma repl2_miss2 : forall x y z c t, match t with d :: _ => N.eqb d y = false | [] => True end -> repl2 x y z (c :: t) = c :: repl2 x y z t.
-Proof. intros x y z c [|d t] H; [reflexivity|]. cbn [repl2]. rewrite H, andb_false_r. reflexivity. Qed.
+(* one pass of unesc over a character-wise encoding: every character is written as itself (not a backslash) or as a backslash
+   followed by a character that unesc_char maps back to it *)
+Lemma unesc_plain : forall c t, c <> BSL -> unesc (c :: t) = c :: unesc t.
+Proof. intros c [|d t] H; [reflexivity|]. cbn [unesc]. rewrite (proj2 (N.eqb_neq c BSL) H). reflexivity. Qed.
+Lemma unesc_hit : forall d z t, unesc_char d = Some z -> unesc (BSL :: d :: t) = z :: unesc t.
+Proof. intros d z t H. cbn [unesc]. rewrite N.eqb_refl, H. reflexivity. Qed.
 
-Lemma esc_head : forall q n, N.eqb q BSL = false -> match esc q n with d :: _ => N.eqb d q = false | [] => True end.
+Definition good_enc (enc : ch -> str) : Prop :=
+  forall c, (enc c = [c] /\ c <> BSL) \/ (exists d, enc c = [BSL; d] /\ unesc_char d = Some c).
+
+Lemma unesc_flat : forall enc, good_enc enc -> forall n, unesc (flat_map enc n) = n.
 Proof.
-  intros q [|c n] Hq; [exact I|]. unfold esc. cbn [flat_map]. destruct (N.eqb c BSL || N.eqb c q) eqn:E; cbn [app].
-  - rewrite N.eqb_sym. exact Hq.
-  - apply orb_false_iff in E. exact (proj2 E).
+  intros enc G. induction n as [|c n IH]; [reflexivity|]. cbn [flat_map].
+  destruct (G c) as [[E Hc]|[d [E Hd]]]; rewrite E; cbn [app].
+  - rewrite unesc_plain by exact Hc. rewrite IH. reflexivity.
+  - rewrite (unesc_hit d c _ Hd). rewrite IH. reflexivity.
 Qed.
 
-Lemma pass1 : forall q n, N.eqb q BSL = false -> repl2 BSL q q (esc q n) = dbl n.
+Lemma esc_good : forall q, q = APOS \/ q = QT -> good_enc (fun c => if N.eqb c BSL || N.eqb c q then [BSL; c] else [c]).
 Proof.
-  intros q n Hq. induction n as [|c n IH]; [reflexivity|]. unfold esc, dbl in *. cbn [flat_map].
-  destruct (N.eqb_spec c BSL) as [->|Hc].
-  - cbn [orb app]. rewrite repl2_miss2 by (rewrite N.eqb_sym; exact Hq). rewrite repl2_miss2 by (exact (esc_head q n Hq)). rewrite IH. reflexivity.
-  - cbn [orb]. destruct (N.eqb_spec c q) as [->|Hc2]; cbn [app].
-    + rewrite repl2_hit, IH. reflexivity.
-    + rewrite repl2_miss1 by (apply N.eqb_neq; exact Hc). rewrite IH. reflexivity.
-Qed.
-
-Lemma pass2 : forall n, repl2 BSL BSL BSL (dbl n) = n.
-Proof.
-  induction n as [|c n IH]; [reflexivity|]. unfold dbl in *. cbn [flat_map]. destruct (N.eqb_spec c BSL) as [->|Hc]; cbn [app].
-  - rewrite repl2_hit, IH. reflexivity.
-  - rewrite repl2_miss1 by (apply N.eqb_neq; exact Hc). rewrite IH. reflexivity.
+  intros q Hq c. destruct (N.eqb_spec c BSL) as [->|Hc]; cbn [orb].
+  - right. exists BSL. split; reflexivity.
+  - destruct (N.eqb_spec c q) as [->|Hc2].
+    + right. exists q. split; [reflexivity|]. destruct Hq as [->| ->]; reflexivity.
+    + left. split; [reflexivity|exact Hc].
 Qed.
 
 Lemma last_opt_app : forall (s : str) c, last_opt (s ++ [c]) = Some c.
@@ -840,17 +836,20 @@ Proof.
   cbn [last_opt]. exact IH.
 Qed.
 
+(* unquote_string of  q body q  is the unescaped body *)
+Lemma unquote_wrapped : forall q body, q = APOS \/ q = QT -> unquote_string (q :: body ++ [q]) = Some (unesc body).
+Proof.
+  intros q body Hq. unfold unquote_string. replace (Nat.ltb (length (q :: body ++ [q])) 2) with false.
+  2:{ symmetry. apply Nat.ltb_ge. cbn [length]. rewrite app_length. cbn [length]. lia. }
+  replace (last_opt (q :: body ++ [q])) with (Some q) by (symmetry; apply (last_opt_app (q :: body) q)).
+  assert (I : inner (q :: body ++ [q]) = body) by (unfold inner; cbn [tl]; apply removelast_last).
+  rewrite I, N.eqb_refl, andb_true_r. destruct Hq as [->| ->]; reflexivity.
+Qed.
+
 (* 'name' / "name" with backslashes and the quote character escaped (the spelling both languages read back as name) *)
 Theorem unquote_quote : forall q name, q = APOS \/ q = QT -> unquote_string (quote q name) = Some name.
 Proof.
-  intros q name Hq. assert (Hb : N.eqb q BSL = false) by (destruct Hq as [->| ->]; reflexivity).
-  unfold unquote_string, quote. replace (Nat.ltb (length (q :: esc q name ++ [q])) 2) with false.
-  2:{ symmetry. apply Nat.ltb_ge. cbn [length]. rewrite app_length. cbn [length]. lia. }
-  replace (last_opt (q :: esc q name ++ [q])) with (Some q) by (symmetry; apply (last_opt_app (q :: esc q name) q)).
-  assert (I : inner (q :: esc q name ++ [q]) = esc q name) by (unfold inner; cbn [tl]; apply removelast_last).
-  rewrite I. destruct Hq as [->| ->].
-  - change (N.eqb APOS APOS) with true. cbn [andb]. rewrite (pass1 APOS name Hb), pass2. reflexivity.
-  - change (N.eqb QT APOS) with false. change (N.eqb QT QT) with true. cbn [andb]. rewrite (pass1 QT name Hb), pass2. reflexivity.
+  intros q name Hq. unfold quote. rewrite (unquote_wrapped q (esc q name) Hq). unfold esc. rewrite (unesc_flat _ (esc_good q Hq)). reflexivity.
 Qed.
 
 (* ------------------------------------------------------------------ sufficient conditions for "none of the regexes accepts the text" *)
